@@ -31,6 +31,7 @@ type c19Case struct {
 	Kind    string     `json:"kind"` // ooxml | jar | odf | free
 	Entries []c19Entry `json:"entries"`
 	Want    string     `json:"want,omitempty"` // expected media type for ooxml/odf kinds
+	Prev    []c19Entry `json:"prev,omitempty"` // another archive that went through the caller's buffer just before
 }
 
 func c19Build(es []c19Entry) ([]byte, error) {
@@ -127,6 +128,14 @@ func c19GenEntry(t *rapid.T, name string) c19Entry {
 }
 
 func c19Gen(t *rapid.T) c19Case {
+	c := c19GenOne(t)
+	if rapid.Bool().Draw(t, "withprev") {
+		c.Prev = c19GenOne(t).Entries
+	}
+	return c
+}
+
+func c19GenOne(t *rapid.T) c19Case {
 	var c c19Case
 	switch rapid.IntRange(0, 5).Draw(t, "kind") {
 	case 0, 1: // (a) OOXML package
@@ -221,6 +230,8 @@ func c19HasPrefixAny(name string, markers ...string) bool {
 	return false
 }
 
+var c19Shared []byte
+
 func c19Check(c c19Case) vfResult {
 	var r vfResult
 	raw, err := c19Build(c.Entries)
@@ -249,6 +260,35 @@ func c19Check(c c19Case) vfResult {
 	}
 	m := vfDetectAt(raw, 0)
 	got := m.String()
+	// the same archive handed over in a buffer the caller re-uses for every archive gets the same
+	// verdict: the previous case's archive and then this one go through ONE buffer, back to back,
+	// with the same length (both padded / cut to this archive's 256-byte bucket)
+	bucket := (len(raw) + 255) / 256 * 256
+	if cap(c19Shared) < bucket {
+		c19Shared = make([]byte, bucket*2)
+	}
+	sh := c19Shared[:bucket]
+	fill := func(b []byte) {
+		n := copy(sh, b)
+		for i := n; i < bucket; i++ {
+			sh[i] = 0
+		}
+	}
+	if len(c.Prev) > 0 {
+		if prev, err := c19Build(c.Prev); err == nil {
+			fill(prev)
+			vfDetectAt(sh, 0)
+			r.Labels = append(r.Labels, "reused-buffer-after-other-archive")
+		}
+	}
+	fill(raw)
+	if ms := vfDetectAt(sh, 0); ms.String() != got {
+		fresh := append([]byte(nil), sh...)
+		if mf := vfDetectAt(fresh, 0); mf.String() == got {
+			r.Err = fmt.Errorf("archive reported as %s from a fresh buffer but as %s from a buffer that held another archive of the same length just before; entries: %v", got, ms.String(), names)
+			return r
+		}
+	}
 	r.Labels = append(r.Labels, "kind-"+c.Kind, "verdict-"+got)
 	mixed, anyStream, anyRaw := false, false, false
 	for _, e := range c.Entries {
